@@ -33,7 +33,14 @@ def reorderH : Handler := fun j => do
   let sel ← asIntList (← getField j "selector")
   pure <| Json.mkObj [("A", listJ ratListJ (reorderCols A ncols sel))]
 
+def boxRowsH : Handler := fun j => do
+  let lo ← asRatList (← getField j "lo")
+  let hi ← asRatList (← getField j "hi")
+  if lo.length != hi.length then throw "box: lengths differ"
+  let rows := boxRows lo hi
+  pure <| Json.mkObj [("A", listJ ratListJ (rows.map Prod.fst)), ("b", ratListJ (rows.map Prod.snd))]
+
 def handlers : List (String × Handler) :=
-  [("domain.infer_sig", inferH false), ("domain.infer_poly", inferH true), ("domain.reorder", reorderH)]
+  [("domain.infer_sig", inferH false), ("domain.infer_poly", inferH true), ("domain.reorder", reorderH), ("domain.box_rows", boxRowsH)]
 
 end Sageopt.Drv.Domain
